@@ -22,6 +22,9 @@ def expand(hist):
     out = []
     for (t, name, *args) in hist:
         items = []
+        if name == 'end':          # the thread ends (whatever its count); nothing to observe
+            out.append([])
+            continue
         if name in ('enbc', 'enter'):
             items.append(('en', t))
         elif name in ('disbc', 'exit'):
@@ -114,8 +117,18 @@ def gen_history(rng, cls):
     n = rng.below(36) + 4
     hist = []
     slots = {}
+    alive = list(range(nthreads))      # logical thread numbers; 0 is the main thread
+    nxt = nthreads
+    r2 = rng.fork('generations')
     for _ in range(n):
-        t = rng.below(nthreads)
+        t = alive[rng.below(len(alive))]
+        if nthreads > 1 and t != 0 and r2.chance(1, 9):
+            # this thread ends here (possibly with a positive count) and a new one takes its place later
+            hist.append([t, 'end'])
+            alive.remove(t)
+            alive.append(nxt)
+            nxt += 1
+            continue
         r = rng.below(100)
         if r < 22:
             hist.append([t, rng.choice(['enbc', 'enter'])])
